@@ -31,6 +31,25 @@ def build_modules(ctx):
     return pmi, pmf
 
 
+class _Names(object):
+    """imports, exports and globals whose names contain non-ASCII (UTF-8), punctuation, underscores in every position and the escape letter X"""
+    modname = "c11names"
+    probes = []
+
+    def __init__(self):
+        m = W.Module()
+        h = m.import_func("env", "h\u00e9_llo", [W.I32], [W.I32])
+        h2 = m.import_func("__e__", "_lead__double___x_", [W.I32], [W.I32])
+        g = m.import_global("e\u00e9", "g\u00fc-X.$", W.I32, False)
+        m.memory(1, 1)
+        m.func([W.I32], [W.I32], W.ins("local.get", 0) + W.ins("call", h) + W.ins("call", h2) + W.ins("global.get", g) + W.ins("i32.add"), export="r\u00e9n X_\u4e16\u754c")
+        self.m = m
+
+
+def names_module():
+    return _Names()
+
+
 def compile_matrix(ctx, job):
     """Supporting static facts + bounded differential corroboration (NOT the deciding step):
     the generated probe modules compile as GNU C89 and as the default dialect with gcc and clang, and a driver over boundary inputs prints
@@ -38,7 +57,7 @@ def compile_matrix(ctx, job):
     facts = []
     pmi, pmf = build_modules(ctx)
     pm3 = c03.build(ctx, "c11cf", 8)
-    for pm in (pmi, pmf, pm3):
+    for pm in (pmi, pmf, pm3, names_module()):
         d, r = ctx.translate(pm.m.encode(), pm.modname + "x", ())
         if d is None:
             raise Undecided("translator rejected " + pm.modname)
@@ -49,6 +68,8 @@ def compile_matrix(ctx, job):
                 rr = subprocess.run(cmd, capture_output=True)
                 facts.append(("%s %s accepts the generated C of %s (with the runtime header) without errors" % (cc, std or "(default dialect)", pm.modname), rr.returncode == 0,
                               rr.stderr.decode(errors="replace")[:300]))
+        if not pm.probes:
+            continue
         # differential driver
         mod = pm.modname + "x"
         lines = ['#include <stdio.h>', '#include <setjmp.h>', '#include <string.h>', '#include "%s.h"' % mod, "static jmp_buf jb; void trap(Trap t) { longjmp(jb, 1 + (int)t); }",
@@ -102,6 +123,11 @@ def make_jobs(ctx):
         j.min_canaries = 1
     jobs += j3
     jobs += expr_jobs(ctx, ["signed_infix", "shl", "shr_u", "shr_s"])
+    from ..elayer import ejob
+    for nlen in (1, 2, 3):   # the same identifier text in declarations and uses, for every byte value of a name (else the generated C does not compile)
+        jobs.append(ejob(ctx, "E.names_escape.len%d" % nlen, "e_names.c", "h_escape", ["c.c:wasmCWriteFileEscaped", "c.c:wasmCWriteStringEscaped"], defines=["NLEN=%d" % nlen],
+                         flags=["--unwind", "12", "--unwinding-assertions"], native_src=["array.c", "opcode.c", "instruction.c", "valuetype.c", "sha1.c", "export.c", "debug.c", "section.c"],
+                         bounded="names of %d bytes, every byte value symbolic (the escapers look at the current and the previous byte only)" % nlen))
     for j in jobs:
         j.info["ub_obligations"] = "signed overflow, undefined shift, division by zero, pointer overflow, bounds, pointer validity (CBMC built-in properties of this run)"
     s = Job("S.compilers", src=None, solver="static", funcs=["gcc 12 / clang 14 on generated C"], bounded="supporting static facts and a boundary-input differential run; not the deciding step",
